@@ -452,6 +452,12 @@ impl TreeSink for RcDom {
     }
 
     fn append_before_sibling(&self, sibling: &Handle, child: NodeOrText<Handle>) {
+        // A node that is being moved leaves its old parent first: if that parent is also the
+        // sibling's parent, the insertion index changes.
+        if let NodeOrText::AppendNode(ref node) = child {
+            remove_from_parent(node);
+        }
+
         let (parent, i) = get_parent_and_index(sibling)
             .expect("append_before_sibling called on node without parent");
 
@@ -479,8 +485,6 @@ impl TreeSink for RcDom {
             // Any other kind of node.
             (NodeOrText::AppendNode(node), _) => node,
         };
-
-        remove_from_parent(&child);
 
         child.parent.set(Some(Rc::downgrade(&parent)));
         parent.children.borrow_mut().insert(i, child);
